@@ -15,12 +15,10 @@ PROP = dict(
         "prices can spin on JMP 0 and is outside the property's premise",
         "bare VM: SYSCALL/CALLT fault; Go runtime memory safety of math/big, slices and maps is assumed",
     ],
-    modelled="vm.go and scparser.IsScriptCorrect are modelled, not translated; the model's REMOVE on a Map drops the entry "
-             "before un-counting key and value (the order of the repair F50; vm.go as found un-counts first and under-counts when "
-             "the removed value is the last holder of the map itself - known finding F50, executions of that shape are compared "
-             "up to the REMOVE only); refs_never_undercount is proved in Coq for every instruction of the bare VM (one script "
-             "context); exactness (refs == walk while no cycle was built) is proved only for compound-free executions and "
-             "checked on the real VM at every step of every generated execution",
+    modelled="vm.go and scparser.IsScriptCorrect are modelled, not translated; both halves of the accounting statement "
+             "(never under-counts; exact while no cycle was built) are proved in Coq for every instruction of the bare VM (one "
+             "script context) and tied to the code by comparing VM.refs before every instruction with the model and with an "
+             "independent walk of the real stacks and slots",
 )
 META = dict(
     text="Proved in Coq on the VM model for every script and state: totality (every execution under a finite gas limit with "
@@ -38,9 +36,10 @@ META = dict(
          "proved in Coq through an in-degree invariant of the per-compound counts, preserved by every instruction family "
          "(creation, growth, readers, spreading, removal/SETITEM, slots and stack shuffles, CALL/RET/unloading, TRY/THROW "
          "unwinding) - on the model whose REMOVE follows the repair F50: the proof attempt found that vm.go's REMOVE on a Map "
-         "under-counts (finding F50, reproduced on the real VM: counter -1 with an empty stack). Partial: exactness of the "
-         "counter (== the walk while no cycle was built) is proved only on compound-free executions; with compounds it is "
-         "checked on the real VM at every step of every generated execution.",
+         "under-counted (finding F50, reproduced on the real VM: counter -1 with an empty stack; fixed in the tree). Exactness "
+         "(reach_count == refs after every instruction while no instruction ever closed a cycle) is proved as well: on an acyclic "
+         "heap every compound with a count > 0 is reachable from a root, the walk completes and equals the counter, and no "
+         "instruction leaks a count (SETITEM needs acyclicity for that: un-counting the replaced element cannot reach the container).",
     note="The model is hand-written and tied to vm.go by differential execution only. Trusted: model, translator of the tables, "
          "Go walk, hooks, Coq kernel/vm_compute, harness and orchestration.",
 )
